@@ -1192,10 +1192,8 @@ class BaseGaussianState(BaseState):
 
             r = np.arccosh(tr / 2) / 2
 
-            if cov[0, 1] == 0.0:
-                phi = 0
-            else:
-                phi = -np.arcsin(2 * cov[0, 1] / np.sqrt((tr - 2) * (tr + 2)))
+            # cov = [[cosh2r - sinh2r cos(phi), -sinh2r sin(phi)], [-sinh2r sin(phi), cosh2r + sinh2r cos(phi)]]
+            phi = np.arctan2(-2 * cov[0, 1], cov[1, 1] - cov[0, 0]) + 0.0
 
             res.append((r, phi))
 
